@@ -686,6 +686,45 @@ def oracle_headers(ctx, mods, r):
             fails.append(dict(header_class="path", problem="file path read differs: %r" % (a,)))
     except Exception as e:  # noqa: BLE001
         fails.append(dict(header_class="path", problem="raised %s" % type(e).__name__))
+    # ... and open binary streams of other kinds: an anonymous temporary file and a descriptor-backed file object have an
+    # integer `name`, a pipe-like reader none at all
+    import tempfile
+
+    class Bare(io.RawIOBase):  # readable, no name, no seek
+        def __init__(self, b):
+            self._b, self._p = b, 0
+
+        def readable(self):
+            return True
+
+        def readinto(self, buf):
+            n = min(len(buf), len(self._b) - self._p)
+            buf[:n] = self._b[self._p:self._p + n]
+            self._p += n
+            return n
+
+    for label, payload, want in (("well-formed", good, [0, 0, 0, 0]), ("no NIST_1A header", b"RIFF" + bytes(2000), None)):
+        for kind in ("tempfile.TemporaryFile", "os.fdopen", "io.BufferedReader without a name"):
+            tf = tempfile.TemporaryFile()
+            tf.write(payload)
+            tf.seek(0)
+            st = tf if kind == "tempfile.TemporaryFile" else os.fdopen(os.dup(tf.fileno()), "rb") if kind == "os.fdopen" else io.BufferedReader(Bare(payload))
+            try:
+                a = util.read_signal(st, force_as="sph")
+                if want is None:
+                    fails.append(dict(header_class="stream:" + kind, problem="%s: returned data instead of IOError" % label))
+                elif a.dtype != np.int16 or a.tolist() != want:
+                    fails.append(dict(header_class="stream:" + kind, problem="%s: read differs: %r" % (label, a)))
+            except IOError:
+                if want is not None:
+                    fails.append(dict(header_class="stream:" + kind, problem="%s: raised IOError" % label))
+            except Exception as e:  # noqa: BLE001
+                fails.append(dict(header_class="stream:" + kind, stream_name=repr(getattr(st, "name", None)),
+                                  problem="%s file from a %s stream: raised %s: %s" % (label, kind, type(e).__name__, str(e)[:100])))
+            finally:
+                if st is not tf:
+                    st.close()
+                tf.close()
     return fails
 
 
